@@ -518,7 +518,8 @@ class TD3(RLAlgorithm):
         self.set_training_mode(False)
         with torch.no_grad():
             rewards = []
-            num_envs = env.num_envs if hasattr(env, "num_envs") else 1
+            is_vectorised = hasattr(env, "num_envs")
+            num_envs = env.num_envs if is_vectorised else 1
             for i in range(loop):
                 obs, _ = env.reset()
                 scores = np.zeros(num_envs)
@@ -529,7 +530,13 @@ class TD3(RLAlgorithm):
                     if swap_channels:
                         obs = obs_channels_to_first(obs)
                     action = self.get_action(obs, training=False)
+                    if not is_vectorised:
+                        action = action[0]
+
                     obs, reward, done, trunc, _ = env.step(action)
+                    if not is_vectorised:
+                        done, trunc = [done], [trunc]
+
                     step += 1
                     scores += np.array(reward)
                     for idx, (d, t) in enumerate(zip(done, trunc)):
